@@ -19,6 +19,8 @@ CASES = [
     # macro names that are no Python identifiers
     ("bare-defined-dashed", "acm-toplas", THREE), ("bare-defined-colon", "ieee:tc", THREE), ("bare-defined-dotted", "j.acm", THREE),
     ("bare-defined-digit-first", "2nd", THREE),
+    # the same reference in several fields of one entry: each is resolved and recorded
+    ("bare-defined-again", "s1", ONE), ("bare-undefined-again", "zz", "zz"), ("bare-defined-third-time", "s1", ONE), ("bare-defined-2-again", "s2", TWO),
 ]
 
 
@@ -143,6 +145,34 @@ def run(P: Program, rep: Report):
         ok = isinstance(names, list) and names == ["ResolveStringReferencesMiddleware", "RemoveEnclosingMiddleware", "NormalizeFieldKeys"]
         rep.check(ok, "C11.R5", "parse-stack-with-addition-order", psf.loc,
                   f"parse_string with an appended middleware applies {names}: resolution must still run first, the addition last")
+
+    rep.rule("C11.R7", "after default parsing (both middlewares of the default parse stack) an enclosed value holds its own content: exactly one "
+                       "outer pair is removed and what is inside is neither looked up nor stripped again; a resolved reference holds the "
+                       "string's own content with one outer pair removed")
+    dps = P.func("middlewares.parsestack", "default_parse_stack")
+    ROWS = [("{s1}", "s1"), ('"s1"', "s1"), ('{"Untitled"}', '"Untitled"'), ('"{x}"', "{x}"), ("{{Protected}}", "{Protected}"), ('{"Yes" or "No"}', '"Yes" or "No"'),
+            ("s1", "one"), ("sq", '"Veni, vidi"'), ("zz", "zz"), ('{s1 # s2}', "s1 # s2"), ("{}", ""), ('""', "")]
+
+    def whole(ctx):
+        it = driver_interp(P, ctx, "middlewares.parsestack")
+        mk = lambda c, *a, **k: new_obj(it, P, "model", c, *a, **k)
+        e = mk("Entry", entry_type="a", key="k", start_line=0, raw="r", fields=AList([mk("Field", key=f"f{i}", value=v, start_line=i) for i, (v, w) in enumerate(ROWS)]))
+        lib = new_obj(it, P, "library", "Library")
+        call(it, lib, "add", AList([mk("String", key="s1", value='"one"', start_line=0, raw="r1"), mk("String", key="s2", value="{two}", start_line=0, raw="r2"),
+                                    mk("String", key="sq", value='{"Veni, vidi"}', start_line=0, raw="r3"), e]))
+        try:
+            for m in it.iterate(call_func(it, dps)):
+                lib = call(it, m, "transform", lib)
+        except (Raised, Unsupported, LoopBound) as ex_:
+            return repr(ex_)
+        ent = it.iterate(it.get_attr(lib, "entries"))[0]
+        return [it.get_attr(f, "value") for f in it.iterate(it.get_attr(ent, "fields"))]
+    for ctx, vals in explore(whole, 20):
+        if not isinstance(vals, list):
+            rep.fail("C11.R7", "default-parsing:raises", dps.loc, f"default parse stack: {vals}")
+            continue
+        for (src, want), got in zip(ROWS, vals):
+            rep.check(got == want, "C11.R7", f"default-parsing:{src!r}", dps.loc, f"after default parsing the field written as {src} holds {got!r}, its own content is {want!r}")
 
     rep.rule("C11.R6", "reference lookup needs exact @string keys and verbatim field values from the splitter (splitter product, content class, see C02.R2)")
     from .. import splitter_facts as _sf
